@@ -83,19 +83,20 @@ func (v *valInt) decode(dec decoder.Decoder) error {
 	v.val = append(v.val, dec.Int32())
 
 	// Check for additional values
-	if vtag := dec.Byte(); vtag == v.tag {
+	vtag := dec.Byte()
+	for vtag == v.tag {
 		//check name length
 		if l := dec.Int16(); l == 0 {
 			_ = dec.Int16()
 			v.val = append(v.val, dec.Int32())
+			vtag = dec.Byte()
 		} else {
-			//rewind buffer
-			dec.Seek(-3)
+			dec.Seek(-2) //Rewind name length
+			break
 		}
-	} else {
-		//rewind buffer
-		dec.Seek(-1)
 	}
+	dec.Seek(-1) //Rewind tag
+
 	if err := dec.LastError(); err != nil {
 		return err
 	}
